@@ -2,7 +2,7 @@
 From Coq Require Import List ZArith NArith Bool Arith Lia.
 From GoProbe.Base Require Import CorrLib.
 From GoProbe.C04 Require Import Model.
-From GoProbe.C30 Require Import C04P1 C04P2 C04P3 C04P4 C04P5.
+From GoProbe.C30 Require Import C04P1 C04P2 C04P3 C04P4 C04P5 C04PC.
 From GoProbe.C30 Require Import Model Corr Proofs Proofs2 WInv WInv2 WInv3 WInv4 RSpec REnv.
 Import ListNotations.
 
@@ -17,11 +17,39 @@ Definition totals_no_recur (ws : list writeout) : Prop :=
 Definition list_good (ws : list writeout) (r : result) : Prop :=
   exists o, r = Ok o /\ Forall (tot_ok ws) (o_tots o).
 
-Lemma listing_snapshot ws out : totals_no_recur ws ->
+Lemma listing_snapshot ws out : Forall wf_w ws -> totals_no_recur ws ->
   conc (cal_of ws) fs_empty (hist_ops fs_empty ws) (reader_prog false) out -> list_good ws out.
 Proof.
-  intros NR C. destruct (hist_from_empty ws) as (jf & nff & Mj & Bj & Mn & _ & HG).
-  apply (wp_sound ws jf nff Mj Bj Mn HG NR (list_good ws) _ _ ltac:(apply (wp_reader_list ws jf nff Mj Bj Mn HG NR); intros acc A; eexists; split; [reflexivity|exact A]) C).
+  intros WF NR C. destruct (hist_from_empty ws WF) as (jf & nff & Mj & Bj & Mn & _ & HG).
+  eapply (wp_sound ws jf nff Mj Bj Mn HG NR (list_good ws)); [|exact C].
+  eapply wp_reader_list; eauto. intros acc A. eexists. split; [reflexivity|exact A].
+Qed.
+
+(* the block timestamps of every day increase strictly (DBWriter.Write rejects a block that is not newer than the
+   last one of its day) *)
+Definition ts_incr (ws : list writeout) : Prop := forall k, ts_sorted (FL ws k).
+
+(* the query returned Ok, reported no broken block, and every day directory it processed shows exactly the blocks
+   (timestamp, content id) of the first j write-outs, for some j *)
+Definition query_good (ws : list writeout) (r : result) : Prop :=
+  exists o, r = Ok o /\ o_broken o = 0 /\ Forall (day_ok ws) (o_days o).
+
+Lemma query_snapshot ws out : Forall wf_w ws -> ts_incr ws -> totals_no_recur ws ->
+  conc (cal_of ws) fs_empty (hist_ops fs_empty ws) (reader_prog true) out -> query_good ws out.
+Proof.
+  intros WF TS NR C. destruct (hist_from_empty ws WF) as (jf & nff & Mj & Bj & Mn & _ & HG).
+  eapply (wp_sound ws jf nff Mj Bj Mn HG NR (query_good ws)); [|exact C].
+  eapply wp_reader_query; eauto. intros acc [A B]. eexists. split; [reflexivity|]. cbn. split; auto.
+Qed.
+
+Lemma hist1_wf : Forall wf_w hist1.
+Proof. repeat constructor; unfold wf_w; cbn; discriminate. Qed.
+Lemma hist1_ts : ts_incr hist1.
+Proof.
+  intros k. unfold FL, daylist.
+  assert (E0 : spec_db [] hist1 = [((0%N, 1699920000%Z), hist1)]) by (vm_compute; reflexivity).
+  rewrite E0. cbn [lookup]. destruct (keqb k (0%N, 1699920000%Z)); [|constructor].
+  unfold hist1. repeat constructor; cbn; lia.
 Qed.
 
 Lemma hist1_no_recur : totals_no_recur hist1.
